@@ -46,7 +46,7 @@ def verify_function(world: World, lib: SpecLib | None, c: Contract, timeout_ms: 
         res.status = "trusted"
         return res
     try:
-        mod, fn = extract.get_function(c.fn)
+        mod, fn = extract.get_function(c.fn, c.def_index)
         res.src_sha = mod.sha256
         res.fn_hash = extract.fn_hash(fn)
         machine_box: list[Machine] = []
@@ -96,6 +96,8 @@ def _enter_only(m: Machine, ctx: PathCtx) -> None:
     names = [x.arg for x in a.posonlyargs + a.args + a.kwonlyargs]
     if a.vararg:
         names.append(a.vararg.arg)
+    if a.kwarg:
+        names.append(a.kwarg.arg)
     m.env = {n: m.fresh_of(c.params[n], n) for n in names}
     for g, s in c.ghost.items():
         m.env[g] = m.fresh_of(s, g)
@@ -119,6 +121,7 @@ class Lemma:
     cases: list[tuple[str, Callable[[TermBank], tuple[list[Any], Any]]]]
     props: list[str] = field(default_factory=list)
     note: str = ""
+    uses: list[str] = field(default_factory=list)  # names of (already proved) lemma rules this proof may use
 
 
 def prove_lemma(lem: Lemma, axioms: Sequence[Any], lib: SpecLib, timeout_ms: int = 20000) -> list[Obligation]:
@@ -127,6 +130,6 @@ def prove_lemma(lem: Lemma, axioms: Sequence[Any], lib: SpecLib, timeout_ms: int
         bank = TermBank()
         hyps, goal = build(bank)
         ob = Obligation(name=f"lemma:{lem.name}/{cname}", hyps=hyps, goal=goal, kind="lemma", bank=bank)
-        discharge(ob, axioms, lib, timeout_ms)
+        discharge(ob, axioms, lib, timeout_ms, lemma_rules=set(lem.uses))
         out.append(ob)
     return out
